@@ -14,9 +14,9 @@ Definition scale_op (nu nv nw : Z) (o : op) : gridop :=
   mkGOp (map_m33 (fun x => cdiv x DEN) (rot o))
         (cdiv (t0 * nu) DEN, cdiv (t1 * nv) DEN, cdiv (t2 * nw) DEN).
 
-(* sg_number = 1 (or no space group) gives no operations *)
+(* primitive P1 (or no space group) gives no operations; the centred settings A1..I1 of number 1 do *)
 Definition scaled_ops_except_id (number : Z) (g : gops) (nu nv nw : Z) : list gridop :=
-  if number =? 1 then []
+  if (number =? 1) && Nat.eqb (length (cen_ops g)) 1 then []
   else map (scale_op nu nv nw) (filter (fun o => negb (op_eqb o identity)) (all_ops g)).
 
 (* GridOp::apply *)
